@@ -799,7 +799,7 @@ func (e *Engine) callFunction(st *State, fr *Frame, fn *ssa.Function, args []Val
 func allowedStdPkg(path string) bool {
 	switch path {
 	case "encoding/binary", "bytes", "net", "net/netip", "strconv", "strings", "unicode/utf8", "errors",
-		"math/bits", "internal/bytealg", "internal/byteorder", "internal/itoa", "internal/stringslite", "unicode", "slices", "sort", "cmp", "math":
+		"math/bits", "encoding/hex", "internal/bytealg", "internal/byteorder", "internal/itoa", "internal/stringslite", "unicode", "slices", "sort", "cmp", "math":
 		return true
 	}
 	return false
@@ -1175,26 +1175,45 @@ func (e *Engine) next(st *State, fr *Frame, x *ssa.Next, idx int, q *pqueue, exi
 		return e.nextRuneSymbolic(st, fr, x, it, idx, q, exits)
 	}
 	// map iteration
-	mo := e.obj(st, it.Map)
 	if it.Map == 0 {
 		fr.regs[x] = TupleV{c.False, nil, nil}
 		return true
 	}
-	m := mo.(*MapObj)
+	m := e.obj(st, it.Map).(*MapObj)
 	pos := it.Pos
-	for pos < len(m.E) && m.E[pos].Present.IsFalse() {
-		pos++
-	}
-	if pos >= len(m.E) {
-		fr.regs[x] = TupleV{c.False, e.zero(m.KeyT), e.zero(m.ValT)}
+	for pos < len(m.E) {
+		en := m.E[pos]
+		if en.Present.IsFalse() {
+			pos++
+			continue
+		}
+		if !en.Present.IsTrue() {
+			// symbolic presence: one path in which the entry is visited, one in which it is absent
+			okP := e.feasible(st, en.Present, "map entry present")
+			okA := !okP || e.feasible(st, c.Not(en.Present), "map entry absent")
+			if okP && okA {
+				s2, f2 := st.fork(), fr.clone()
+				e.stats.States++
+				s2.assume(en.Present)
+				f2.regs[x.Iter] = IterV{IsMap: true, Map: it.Map, Pos: pos + 1}
+				f2.regs[x] = TupleV{c.True, en.K, en.V}
+				e.execBlock(s2, f2, idx+1, q, exits)
+				st.assume(c.Not(en.Present))
+				pos++
+				continue
+			}
+			if !okP {
+				st.assume(c.Not(en.Present))
+				pos++
+				continue
+			}
+			st.assume(en.Present)
+		}
+		fr.regs[x.Iter] = IterV{IsMap: true, Map: it.Map, Pos: pos + 1}
+		fr.regs[x] = TupleV{c.True, en.K, en.V}
 		return true
 	}
-	en := m.E[pos]
-	if !en.Present.IsTrue() {
-		panic(unsupported("range over a map with symbolic key presence"))
-	}
-	fr.regs[x.Iter] = IterV{IsMap: true, Map: it.Map, Pos: pos + 1}
-	fr.regs[x] = TupleV{c.True, en.K, en.V}
+	fr.regs[x] = TupleV{c.False, e.zero(m.KeyT), e.zero(m.ValT)}
 	return true
 }
 
